@@ -25,6 +25,7 @@ EXPLANATION = (
     "Rotation: (R07.5) the sweep that joins protoclusters across the origin sorts by the start of the same "
     "cutoff-extended interval it compares (an extended core that wraps sorts to the front, which is what makes the "
     "first and last chain neighbours in the order for every position of the origin)."
+    ' R07.6 also: the genes of a core are never re-derived by filtering the coordinate-sorted gene list.'
 )
 UNDECIDED = [
     "rotation invariance as a whole (quantifies over coordinates of every gene, core and neighbourhood)",
